@@ -20,7 +20,7 @@ EXPLANATION = (
     "+ spacing fit the budget unless it holds <= 2 labels."
 )
 BOUNDS = {
-    "quick": dict(labels="1..3 (4 for algorithm overlap, fresh engine)", value_box="positions in [-20,130], widths in (0,80], spacing in [0,10]", grid="bounds {(0,100),(None,100),(0,None)}, density 0.85, stubWidth 1; histories fresh/reconf/engine2/stale/subset/interleaved (two engines alive, the first used after the second was configured)"),
+    "quick": dict(labels="1..3 (4 for algorithm overlap, fresh engine)", value_box="positions in [-20,130], widths in (0,80], spacing in [0,10]", grid="bounds {(0,100),(None,100),(0,None)}, density 0.85, stubWidth 1 (0 and 5 for 2-3 labels on (0,100)); histories fresh/reconf/engine2/stale/subset/interleaved (two engines alive, the first used after the second was configured)"),
     "thorough": dict(labels="1..3 over the whole grid, 4 for overlap/simple on (0,100) (5 labels were measured beyond 25 minutes and are not registered)", grid="bounds {(0,100),(None,100),(0,None),(-30,45),(0,60)}, density {0.85,0.5,1}, stubWidth {0,1,5}, all histories for 2-3 labels"),
 }
 OUTSIDE = ["roundRobin (returns [] - not in the property's algorithm set)", "more than 4 labels", "zero-width labels (null interval)", "symbolic layer width / density (concrete grid instead)"]
@@ -36,6 +36,7 @@ def configs(tier):
     if tier == "quick":
         return (
             F([1, 2, 3])
+            + F([2, 3], algs=("overlap", "simple"), bounds=((0, 100),), stubws=(0, 5))
             + F([4], algs=("overlap",), bounds=((0, 100),), shards=12)
             + F([2], algs=("overlap", "simple"), bounds=((0, 100),), hists=("reconf", "engine2", "stale", "subset", "interleaved"))
             + F([3], algs=("overlap", "simple"), bounds=((0, 100),), hists=("reconf", "engine2", "stale", "subset", "interleaved"), shards=4)
